@@ -692,6 +692,37 @@ def judge_lookup_shortcut(prog, fn, ifs, m):
     stmts = then.c if then.k == 'CompoundStmt' else [then]
     loops = [x for x in stmts if x.k in ('ForStmt', 'CXXForRangeStmt', 'WhileStmt')]
     rets = [x for x in stmts if x.k == 'ReturnStmt']
+    # (a) `if (ones.size() < v.ones.size()) return v * (*this);`: the product is symmetric; a strict size test cannot recurse twice
+    if len(stmts) == 1 and rets and rets[0].c and fn.param_ids:
+        r0 = rets[0].c[0].strip_all()
+        g = ifs.cond.strip_all() if ifs.cond is not None else None
+        if r0.k == 'CXXOperatorCallExpr' and r0.op == '*' and len(r0.c) == 3 and ex.var_of(r0.c[1]) == fn.param_ids[0]:
+            o = r0.c[2].strip_all()
+            if o.k == 'UnaryOperator' and o.op == '*' and o.c[0].strip_all().k == 'CXXThisExpr' and g is not None and g.k == 'BinaryOperator' and g.op in ('<', '>'):
+                return 'ok', 'delegates to the same product with the operands swapped under a strict size test (the product is symmetric)'
+    # (b) binary-search form: `cur = std::lower_bound(cur, end, key)` leaves cur at the first coordinate >= key; advancing cur when that coordinate
+    # did not match skips a coordinate that is larger than this key and may equal the next one
+    if len(loops) == 1 and loops[0].body is not None:
+        body = loops[0].body
+        bst = body.c if body.k == 'CompoundStmt' else [body]
+        for ix, st in enumerate(bst):
+            e = st.strip_all()
+            ops = e.c if e.k == 'BinaryOperator' else (e.c[1:] if e.k == 'CXXOperatorCallExpr' else [])
+            if getattr(e, 'op', None) != '=' or len(ops) != 2:
+                continue
+            rhs = ops[1].strip_all()
+            cur = ex.var_of(ops[0])
+            if cur is None or rhs.k != 'CallExpr' or not rhs.callee or rhs.callee['g'] != 'std::lower_bound' or not rhs.args() or ex.var_of(rhs.args()[0]) != cur:
+                continue
+            if any(x.k in ('ContinueStmt', 'GotoStmt') for x in body.walk()):
+                break
+            for later in bst[ix + 1:]:
+                l = later.strip_all()
+                if l.k in ('UnaryOperator', 'CXXOperatorCallExpr') and l.op == '++' and ex.var_of(l.c[-1] if l.k == 'UnaryOperator' else l.c[1]) == cur:
+                    return 'violation', ('`%s` at line %d advances the searched cursor on every iteration, also when the lower bound found for this key did not match: that '
+                                         'coordinate is larger than the key and may be equal to the next key, the common coordinate is then skipped and the parity is wrong' % (
+                                             l.text(20), l.line))
+            break
     rest = [x for x in stmts if x not in loops and x not in rets and x.k != 'DeclStmt']
     if len(loops) != 1 or len(rets) != 1 or rest or stmts[-1] is not rets[0]:
         return 'undecided', 'not a single look-up loop followed by a return'
@@ -784,6 +815,11 @@ def check_inplace_shortcuts(rep, prog, fn, rule):
             o = storage_owner(prog, fn, s.object_arg())
             if o:
                 return ex.f_atom(o + '_empty')
+        if s.k == 'BinaryOperator' and s.op in ('==', '!='):
+            a, b = s.c[0].strip_all(), s.c[1].strip_all()
+            for x, y in ((a, b), (b, a)):
+                if x.k == 'CXXThisExpr' and y.k == 'UnaryOperator' and y.op == '&' and ex.var_of(y.c[0]) == pid:
+                    return ex.f_atom('alias') if s.op == '==' else ex.f_not(ex.f_atom('alias'))
         if s.k == 'BinaryOperator' and s.op in ('<', '>', '<=', '>=', '==', '!='):
             da, db = coord(s.c[0]), coord(s.c[1])
             if da and db:
@@ -824,10 +860,12 @@ def check_inplace_shortcuts(rep, prog, fn, rule):
             rep.undecided(rule, r, fn, what, 'fast-path guard outside the idiom table')
             continue
         bad = None
-        for te, ae, order in itertools.product((False, True), (False, True), ('lt', 'eq', 'gt')):
+        for al, te, ae, order in itertools.product((False, True) if 'alias' in atoms else (False,), (False, True), (False, True), ('lt', 'eq', 'gt')):
             if (te or ae) and order != 'lt':
                 continue        # ends are only compared when both lists are non-empty
-            e = {'this_empty': te, 'arg_empty': ae, 'lt': order == 'lt', 'eq': order == 'eq', 'gt': order == 'gt'}
+            if al and (te != ae or (not te and order == 'lt')):
+                continue        # x += x: one list, its largest coordinate is never below its smallest
+            e = {'alias': al, 'this_empty': te, 'arg_empty': ae, 'lt': order == 'lt', 'eq': order == 'eq', 'gt': order == 'gt'}
             e = {k: v for k, v in e.items() if k in atoms}
             if not ex.f_eval(pc, e):
                 continue
